@@ -457,6 +457,62 @@ func main() {
 				return
 			}
 		}
+		// (d) reader-buffer boundaries: the decoder reads through a 4096-byte bufio.Reader; every byte of a probe
+		// event is placed on the first refill boundary once (a padding event in front, 4200 more bytes behind),
+		// and the stream must decode to exactly what its events decode to one by one
+		{
+			padEvent := func(n int) []byte { // a valid event of exactly n bytes (n >= 263): {"p": "xxx..."}
+				l := n - 7
+				ev := []byte{0xbf, 0x61, 'p', 0x79, byte(l >> 8), byte(l)}
+				ev = append(ev, bytes.Repeat([]byte{'x'}, l)...)
+				return append(ev, 0xff)
+			}
+			tail := padEvent(4200)
+			tailOut := decodeMany(tail).out
+			var probes [][]byte
+			for _, e := range cp {
+				interesting := len(e) > 60
+				for _, b := range e {
+					if b >= 0xc0 && b <= 0xdb || b == 0xfa || b == 0xfb || b == 0x1b || b == 0x3b {
+						interesting = true
+					}
+				}
+				if interesting {
+					probes = append(probes, e)
+				}
+			}
+			maxProbes := 80
+			if tier == "thorough" {
+				maxProbes = 400
+			}
+			if len(probes) > maxProbes {
+				probes = probes[:maxProbes]
+			}
+			r.Count("boundary_probes", int64(len(probes))/int64(n))
+			for _, e := range probes {
+				if !mine() {
+					continue
+				}
+				want1 := decodeMany(e).out
+				for off := 0; off <= len(e); off++ {
+					pad := padEvent(4096 - off)
+					stream := append(append(append([]byte{}, pad...), e...), tail...)
+					res := c.one(stream, "boundary", false)
+					want := append(append(append([]byte{}, decodeMany(pad).out...), want1...), tailOut...)
+					if res.panic != "" {
+						continue
+					}
+					if res.err != nil || !bytes.Equal(res.out, want) {
+						lines := bytes.SplitAfter(res.out, []byte("\n"))
+						c.r.Violation("", "boundary", fmt.Sprintf("an event whose byte %d lies on the reader's 4096-byte refill boundary decodes as %q (err=%v), alone as %q", off, at(lines, 1), res.err, want1), fmt.Sprintf("%x", stream))
+						break
+					}
+				}
+				if r.TimeUp() {
+					return
+				}
+			}
+		}
 		// (c) single-byte edits
 		vals := append([]byte{}, boundary...)
 		if tier == "thorough" {
